@@ -18,6 +18,7 @@ import AcryoVerif.Model.Pca
 import AcryoVerif.Model.Pipe
 import AcryoVerif.Model.Chunks
 import AcryoVerif.Model.Sim
+import AcryoVerif.Model.Load
 
 /-! Dispatch of hand-written model operations for the line-protocol driver. -/
 namespace Model
@@ -505,6 +506,13 @@ def opPipeC (a : Array Rat) : String :=
   | some (e, []) => Canon.canon ((buildC primP primC e).f ((List.range 8).map fun i => ((i : Nat) : Rat) - 3) a[0]!)
   | _ => "err:parse"
 
+/-- `load1d c s order N v1 … vN`: one subtomogram along one axis (identity orientation, grid-coincident centre) -/
+def opLoad1d (a : Array Rat) : String :=
+  let N := (i a 3).toNat
+  match loadAxis ((a.toList.drop 4).take N) a[0]! (i a 1) (i a 2) with
+  | .ok r => " ".intercalate (r.map Canon.canon)
+  | .error e => "err:" ++ toString e
+
 /-- `sim1d scale N nmol (p n v1 … vn)*`: `TomogramSimulator._simulate` along one axis, grid-coincident poses -/
 def opSim1d (a : Array Rat) : String :=
   let scale := a[0]!
@@ -517,7 +525,7 @@ def opSim1d (a : Array Rat) : String :=
       (l.headD 0, (l.drop 2).take n) :: mols k (l.drop (2 + n))
   match simulate1d scale N (mols nmol (a.toList.drop 3)) with
   | .ok r => " ".intercalate (r.map Canon.canon)
-  | .error e => s!"error {e}"
+  | .error e => "err:" ++ toString e
 
 /-- `pick3 scale d0 d1 d2 x0 x1 x2 n0 cs0… n1 cs1… n2 cs2…`: how many blocks keep the position
 (product over the axes) and where the keeping block reports it. -/
@@ -591,6 +599,7 @@ def dispatch (name : String) (a : Array Rat) : Option String :=
   | "pipeC" => some (opPipeC a)
   | "pick3" => some (opPick3 a)
   | "sim1d" => some (opSim1d a)
+  | "load1d" => some (opLoad1d a)
   | _ => none
 
 end Model
